@@ -1,12 +1,17 @@
 import FxVerif.Model.C15
 import FxVerif.Proofs.C15
+import FxVerif.Proofs.C15Queue
+import FxVerif.Proofs.C15Tally
+import FxVerif.Proofs.C15Run
 /-!
 # C15 — governance deposits are conserved and proposals follow their message-type rules
 
 Property theorems only.  The model (`FxVerif.Model.C15`) is driven by `FxVerif.Gen.C15`, regenerated from `/repo` on every
 run: which url `getProposalMsgType` / the EGF rule read, which duration the expedited→regular conversion adds, where the
 tally quorum comes from, the comparison used for activation, how the EGF share is combined with the default minimum, the
-refund/burn guards, cached execution.  The facts the proofs need are taken by `rfl`/`decide` from those definitions, so a
+refund/burn guards, cached execution, and — for the tally — the decision sequence of `Tally` in source order (tests,
+comparison operators, parameters, returned values), the voting-power expressions, the deduction of voting delegators,
+the removal of counted votes.  The facts the proofs need are taken by `rfl`/`decide` from those definitions, so a
 change of the source that invalidates one of them stops the corresponding theorem from checking.
 
 `run init ops` is the state after an arbitrary history; theorems that hold in *every* state are stated for every state
@@ -17,7 +22,8 @@ open FxVerif.Gen.C15 FxVerif.Model.C15 FxVerif.Proofs.C15
 
 /-! ## specification-side definitions (independent of the Gen-driven choice points) -/
 
-/-- the proposal's message type: the type url of its (first) message -/
+/-- the proposal's message type: the type url of its (first) message — of the message itself, also when that is a
+`MsgExecLegacyContent` wrapping a v1beta1 content (custom parameters are configured per message type url) -/
 def typeOf (msgs : List Msg) : Ty := match msgs with | [] => [] | m :: _ => m.ty
 
 /-- voting period configured for a message type at this moment -/
@@ -234,8 +240,8 @@ theorem activation_period_by_type (s : State) (p : Proposal) :
   have h1 : activationUsesCustomPeriod = true := rfl
   have h2 : customPeriodLookupOk = true := rfl
   have h3 : activationDefaultByExpedited = true := rfl
-  have h4 : propTypeIsMessageUrl = true := rfl
-  have ht : propType p.msgs = typeOf p.msgs := by cases h : p.msgs <;> simp [propType, typeOf, h4]
+  have h4 : periodLookupType = "first-message-url" := rfl
+  have ht : propTypeP p.msgs = typeOf p.msgs := by cases h : p.msgs <;> simp [propTypeP, typeUrlBy, typeOf, h4]
   simp only [activationPeriod, specPeriod, h1, h2, h3, ht, Bool.and_self, if_true, Bool.true_and]
   cases getCustom s.custom (typeOf p.msgs) <;> cases p.expedited <;> simp
 
@@ -243,29 +249,96 @@ theorem conversion_period_by_type (s : State) (p : Proposal) :
     conversionPeriod s p = specPeriod s.params s.custom p.msgs false := by
   have h1 : conversionUsesCustomPeriod = true := rfl
   have h2 : customPeriodLookupOk = true := rfl
-  have h4 : propTypeIsMessageUrl = true := rfl
-  have ht : propType p.msgs = typeOf p.msgs := by cases h : p.msgs <;> simp [propType, typeOf, h4]
+  have h4 : periodLookupType = "first-message-url" := rfl
+  have ht : propTypeP p.msgs = typeOf p.msgs := by cases h : p.msgs <;> simp [propTypeP, typeUrlBy, typeOf, h4]
   simp only [conversionPeriod, specPeriod, h1, h2, ht, Bool.and_self, if_true]
   cases getCustom s.custom (typeOf p.msgs) <;> simp
 
 theorem tally_quorum_by_type (s : State) (p : Proposal) : quorumFor s p = specQuorum s.params s.custom p.msgs := by
   have h1 : tallyQuorumByType = true := rfl
   have h2 : customQuorumLookupOk = true := rfl
-  have h4 : propTypeIsMessageUrl = true := rfl
-  have ht : propType p.msgs = typeOf p.msgs := by cases h : p.msgs <;> simp [propType, typeOf, h4]
+  have h4 : quorumLookupType = "first-message-url" := rfl
+  have ht : propTypeQ p.msgs = typeOf p.msgs := by cases h : p.msgs <;> simp [propTypeQ, typeUrlBy, typeOf, h4]
   simp only [quorumFor, specQuorum, h1, h2, ht, Bool.and_self, if_true]
   rfl
+
+/-- turnout as `Tally` computes it: total voting power / total bonded tokens, a `LegacyDec` quotient -/
+def specShare (a b : Nat) : Nat := roundHalfEven (DEC * DEC * a / b) DEC
+
+/-- the outcome the property asks for, from the per-option sums: quorum of the message type, veto threshold, yes
+threshold by kind of proposal -/
+def specPasses (pr : Params) (quorum : Nat) (expedited : Bool) (n : Nums) : Bool :=
+  n.bonded != 0 && !decide (specShare n.total (DEC * n.bonded) < quorum) && n.total != n.abstain &&
+  !decide (pr.vetoThreshold < specShare n.veto n.total) &&
+  decide ((if expedited then pr.expThreshold else pr.threshold) < specShare n.yes (n.total - n.abstain))
+
+/-- … and whether the deposits are burnt: quorum missed (`BurnVoteQuorum`) or vetoed (`BurnVoteVeto`) -/
+def specBurn (pr : Params) (quorum : Nat) (n : Nums) : Bool :=
+  n.bonded != 0 &&
+  (if specShare n.total (DEC * n.bonded) < quorum then pr.burnVoteQuorum
+   else n.total != n.abstain && decide (pr.vetoThreshold < specShare n.veto n.total) && pr.burnVoteVeto)
+
+theorem cmpDec_LT (a b : Nat) : cmpDec "LT" a b = decide (a < b) := by simp [cmpDec]
+theorem cmpDec_GT (a b : Nat) : cmpDec "GT" a b = decide (b < a) := by simp [cmpDec]
+
+/-- **the tally decision, by message type**: whatever the per-option sums are (abstain ≤ total, which holds for every
+tally of stored votes, see `tally_never_divides_by_zero`), the decision sequence read from `Tally` returns exactly the
+specified outcome — turnout against the quorum *configured for the proposal's message type at that moment*, all-abstain,
+veto share against the veto threshold, yes share of the non-abstaining power against the threshold of the proposal's
+kind (strict comparisons), and the burn flags -/
+theorem tally_outcome_by_type (s : State) (p : Proposal) (n : Nums) (hj : n.abstain ≤ n.total) :
+    tally s p n = .ok (specPasses s.params (specQuorum s.params s.custom p.msgs) p.expedited n,
+                       specBurn s.params (specQuorum s.params s.custom p.msgs) n) := by
+  rw [tally_unfold]
+  unfold tallyForm specPasses specBurn
+  rw [tally_quorum_by_type]
+  have hv : paramDec s.params "params.VetoThreshold" = s.params.vetoThreshold := by simp [paramDec]
+  have hy : yesThreshold s p = if p.expedited then s.params.expThreshold else s.params.threshold := by
+    simp only [yesThreshold, show tallyThresholdExpedited = "params.GetExpeditedThreshold()" from rfl,
+      show tallyThresholdRegular = "params.GetThreshold()" from rfl]
+    cases p.expedited <;> simp [paramDec]
+  have hb1 : paramBool s.params "false" = false := by simp [paramBool]
+  have hb2 : paramBool s.params "params.BurnVoteQuorum" = s.params.burnVoteQuorum := by simp [paramBool]
+  have hb3 : paramBool s.params "params.BurnVoteVeto" = s.params.burnVoteVeto := by simp [paramBool]
+  have hf1 : tallyFinalPasses = false := rfl
+  have hf2 : paramBool s.params tallyFinalBurn = false := by
+    simp [paramBool, show tallyFinalBurn = "false" from rfl]
+  rw [hv, hy, hb1, hb2, hb3, hf1, hf2]
+  by_cases hb : n.bonded = 0
+  · simp [hb]
+  · have hb' : (n.bonded == 0) = false := by simpa using hb
+    have hbn : (n.bonded != 0) = true := by simpa using hb
+    rw [decQuo_of_pos (Nat.mul_ne_zero (by decide) hb)]
+    simp only [hb', hbn, Bool.false_eq_true, if_false, cmpDec_LT, cmpDec_GT, specShare, Bool.true_and]
+    by_cases hq : roundHalfEven (DEC * DEC * n.total / (DEC * n.bonded)) DEC < specQuorum s.params s.custom p.msgs
+    · simp [hq]
+    · simp only [hq, decide_false, Bool.false_eq_true, if_false, Bool.not_false, Bool.true_and]
+      by_cases ha : n.total = n.abstain
+      · simp [ha]
+      · have ha' : (n.total == n.abstain) = false := by simpa using ha
+        have han : (n.total != n.abstain) = true := by simpa using ha
+        rw [decQuo_of_pos (a := n.veto) (b := n.total) (by omega), decQuo_of_pos (a := n.yes) (b := n.total - n.abstain) (by omega)]
+        simp only [ha', han, Bool.false_eq_true, if_false, Bool.true_and]
+        by_cases hvt : s.params.vetoThreshold < roundHalfEven (DEC * DEC * n.veto / n.total) DEC
+        · simp [hvt]
+        · simp only [hvt, decide_false, Bool.false_eq_true, if_false, Bool.not_false, Bool.true_and, Bool.false_and]
+          by_cases hyes : (if p.expedited = true then s.params.expThreshold else s.params.threshold) <
+              roundHalfEven (DEC * DEC * n.yes / (n.total - n.abstain)) DEC
+          · simp [hyes]
+          · simp [hyes]
 
 /-- **period and quorum by type**, in every state (so also right after custom parameters were added, changed or
 removed): (1) when voting starts the stored voting end is start + the period configured for the message type at that
 moment; (2) a proposal fails for lack of quorum exactly when the turnout is below the quorum configured for its type at
 that moment; (3) when a failed expedited proposal is converted, its new voting end is start + the *regular* period
 configured for its type at that moment -/
-theorem period_and_quorum_by_type (s : State) (p : Proposal) (e : TallyEnv) (pid : Nat) (s' : State) :
+theorem period_and_quorum_by_type (s : State) (p : Proposal) (n : Nums) (pid : Nat) (s' : State) (burn : Bool)
+    (res : Nat × Nat × Nat × Nat) :
     (∀ q, findProp (activate s p).props p.id = some q → findProp s.props p.id = some p →
         q.votingStart = s.time ∧ q.votingEnd = s.time + specPeriod s.params s.custom p.msgs p.expedited ∧ q.status = .voting) ∧
-    (e.bondedZero = false → e.pct < specQuorum s.params s.custom p.msgs → tally s p e = (false, s.params.burnVoteQuorum)) ∧
-    (findProp s.props pid = some p → p.expedited = true → (tally s p e).1 = false → tallyOne e pid s = .ok s' →
+    (n.bonded ≠ 0 → specShare n.total (DEC * n.bonded) < specQuorum s.params s.custom p.msgs →
+        tally s p n = .ok (false, s.params.burnVoteQuorum)) ∧
+    (findProp s.props pid = some p → p.expedited = true → finishTally false burn res p pid s = .ok s' →
         ∃ q, findProp s'.props pid = some q ∧ q.expedited = false ∧ q.status = p.status ∧ q.votingStart = p.votingStart ∧
           q.votingEnd = p.votingStart + specPeriod s.params s.custom p.msgs false) := by
   refine ⟨?_, ?_, ?_⟩
@@ -274,16 +347,19 @@ theorem period_and_quorum_by_type (s : State) (p : Proposal) (e : TallyEnv) (pid
     subst hq
     simp [activation_period_by_type]
   · intro hb hq
+    rw [tally_unfold]
+    unfold tallyForm
+    have hb' : (n.bonded == 0) = false := by simpa using hb
+    rw [decQuo_of_pos (Nat.mul_ne_zero (by decide) hb)]
     rw [← tally_quorum_by_type s p] at hq
-    simp [tally, hb, show tallyQuorumCmp = "LT" from rfl, hq]
-  · intro hp hexp hfail h
+    simp only [hb', Bool.false_eq_true, if_false, cmpDec_LT]
+    have : paramBool s.params "params.BurnVoteQuorum" = s.params.burnVoteQuorum := by simp [paramBool]
+    simp [specShare] at hq
+    simp [hq, this]
+  · intro hp hexp h
     have hpid : p.id = pid := findProp_id hp
-    unfold tallyOne at h
-    simp only [hp] at h
-    generalize htl : tally s p e = tl at h hfail
-    obtain ⟨passes, burn⟩ := tl
-    simp only at hfail
-    subst hfail
+    unfold finishTally at h
+    simp only [show settleShapeOk = true from rfl, Bool.not_true, Bool.false_and, Bool.false_eq_true, if_false] at h
     simp only [show settleShapeOk = true from rfl, hexp, if_true, Bool.not_false, Bool.and_self, Bool.not_true,
       Bool.false_eq_true, if_false] at h
     cases h
@@ -315,13 +391,23 @@ theorem single_type (s s' : State) (who : Addr) (msgs : List Msg) (initial : Nat
 
 /-! ## all or nothing -/
 
-/-- the messages of a passed proposal run on a cache: if one handler fails, the state is exactly the state before the
-first message (none of the earlier messages' writes remain); otherwise all of them took effect in order -/
+/-- the messages of a passed proposal run on a cache, and the test that decides on `writeCache()` sees the error of the
+handler that failed (regenerated: the loop ASSIGNS `err`): if one handler fails, the state is exactly the state before
+the first message (none of the earlier messages' writes remain) and the proposal is FAILED; otherwise all of them took
+effect in order -/
 theorem messages_all_or_nothing (msgs : List Msg) (s : State) :
     ((runProposalMsgs msgs s).2 = false → (runProposalMsgs msgs s).1 = s) ∧
     ((runProposalMsgs msgs s).2 = true → execMsgs msgs s = some (runProposalMsgs msgs s).1) := by
   unfold runProposalMsgs
-  simp only [show execInCacheCtx = true from rfl, if_true]
+  simp only [show execInCacheCtx = true from rfl, show execErrVisible = true from rfl, if_true]
+  cases h : execMsgs msgs s <;> simp
+
+/-- a proposal is PASSED exactly when every one of its messages succeeded (in order, each on the state the previous ones
+left), otherwise FAILED: the status the end-blocker stores is `if ok then passed else failed` with this `ok` -/
+theorem passed_iff_every_message_succeeded (msgs : List Msg) (s : State) :
+    (runProposalMsgs msgs s).2 = true ↔ ∃ s', execMsgs msgs s = some s' := by
+  unfold runProposalMsgs
+  simp only [show execInCacheCtx = true from rfl, show execErrVisible = true from rfl, if_true]
   cases h : execMsgs msgs s <;> simp
 
 /-! ## gov half of C07: the end-blocker does not fail on refunds / burns -/
@@ -339,18 +425,16 @@ theorem gov_endblock_inactive_total (ops : List Op) (pid : Nat) (p : Proposal) :
   · exact refundDeposits_total (by simpa using hi.bal)
   · exact burnDeposits_total (by simpa using hi.bal)
 
-/-- … and so does the tally of an active-queue entry of a stored proposal, whatever the votes are and whether or not its
-messages succeed (handler errors and panics are caught: `execMsg = none`) -/
-theorem gov_endblock_active_total (ops : List Op) (pid : Nat) (p : Proposal) (e : TallyEnv) :
+/-- … and so does the tally of an active-queue entry of a stored proposal, whatever the outcome of the tally is and
+whether or not its messages succeed (handler errors and panics are caught: `execMsg = none`) -/
+theorem gov_endblock_finish_total (ops : List Op) (pid : Nat) (p : Proposal) (passes burn : Bool) (res : Nat × Nat × Nat × Nat) :
     let s := run init ops
-    findProp s.props pid = some p → ∃ s', tallyOne e pid s = .ok s' := by
-  intro s hp
+    findProp s.props pid = some p → ∃ s', finishTally passes burn res p pid s = .ok s' := by
+  intro s _
   have hi : Inv s := run_inv rfl rfl rfl ops init init_inv
-  unfold tallyOne
-  simp only [hp, show settleShapeOk = true from rfl, if_true]
-  generalize tally s p e = tl
-  obtain ⟨passes, burn⟩ := tl
-  simp only
+  unfold finishTally
+  simp only [show settleShapeOk = true from rfl, Bool.not_true, Bool.false_and, Bool.false_eq_true, if_false]
+  simp only [show settleShapeOk = true from rfl, if_true]
   by_cases hk : (p.expedited && !passes) = true
   · simp only [hk, Bool.not_true, Bool.false_eq_true, if_false]
     split
@@ -369,42 +453,333 @@ theorem gov_endblock_active_total (ops : List Op) (pid : Nat) (p : Proposal) (e 
     · exact ⟨_, rfl⟩
     · split <;> exact ⟨_, rfl⟩
 
-/-- the end-blocker preserves the deposit invariant, so the two theorems above apply again in the next block; the only
-error the modelled end-blocker can return in a reachable state is a queue entry without a stored proposal
-(`…_partial`: that the queues only hold ids of stored proposals, each once, is compared with the real queues by the
-harness on every step but not proved here) -/
-theorem gov_endblock_total_partial (ops : List Op) (envs : List (Nat × TallyEnv)) (s' : State) :
+/-- the staking numbers handed to the end-blocker are those of a staking state: every bonded validator has delegator
+shares (a validator without shares has no tokens and is not bonded).  Only the totality statements need it, and only for
+the block in question: the invariants hold after every history whatever numbers earlier blocks were given. -/
+abbrev stakingOk := FxVerif.Proofs.C15.stakingOk
+
+/-- **the sums of `Tally` never divide by zero**, in every reachable state, for every proposal and whatever the staking
+numbers are: every stored vote passed the `MsgVoteWeighted` validation (invariant), so its weights are at most 1 and no
+option occurs twice, hence abstain ≤ total; and with the decision sequence in the order of the source — zero bonded
+before the turnout, all-abstain (which includes "no votes") before the veto and yes shares — no divisor is zero -/
+theorem tally_never_divides_by_zero (ops : List Op) (stk : Staking) (hs : stakingOk stk) (pid : Nat) :
     let s := run init ops
-    endBlock envs s = .ok s' → Inv s' := by
+    ∃ n, tallyNums (votesOf s.votes pid) stk = some n ∧ n.abstain ≤ n.total ∧ n.bonded = stk.totalBonded ∧
+      ∀ p, ∃ r, tally s p n = .ok r := by
+  intro s
+  have ha : All s := run_all rfl rfl rfl rfl ops init init_all
+  obtain ⟨n, h1, h2, h3⟩ := tallyNums_ok (votes := votesOf s.votes pid) (stk := stk)
+    (fun v hv => ha.both.v.valid v (mem_votesOf.mp hv).1) hs rfl
+  exact ⟨n, h1, h2, h3, fun p => tally_ok s p h2⟩
+
+/-- … and so does the tally of an active-queue entry of a stored proposal, whatever the votes and the staking numbers are -/
+theorem gov_endblock_active_total (ops : List Op) (pid : Nat) (p : Proposal) (stk : Staking)
+    (hs : stakingOk stk) :
+    let s := run init ops
+    findProp s.props pid = some p → ∃ s', tallyOne stk pid s = .ok s' := by
+  intro s hp
+  obtain ⟨n, h1, _, _, h4⟩ := tally_never_divides_by_zero ops stk hs pid
+  obtain ⟨⟨passes, burn⟩, hr⟩ := h4 p
+  have h1' : tallyNums (votesOf s.votes pid) stk = some n := h1
+  have hr' : tally s p n = .ok (passes, burn) := hr
+  have hi : Inv s := run_inv rfl rfl rfl ops init init_inv
+  unfold tallyOne
+  simp only [hp, h1', hr']
+  -- the state handed to `finishTally` differs only in the votes
+  have key : ∀ (s0 : State), s0.gov = sumAmt s0.deps →
+      ∃ s', finishTally passes burn (n.yes / DEC, n.abstain / DEC, n.no / DEC, n.veto / DEC) p pid s0 = .ok s' := by
+    intro s0 hb
+    unfold finishTally
+    simp only [show settleShapeOk = true from rfl, Bool.not_true, Bool.false_and, Bool.false_eq_true, if_false]
+    simp only [show settleShapeOk = true from rfl, if_true]
+    by_cases hk : (p.expedited && !passes) = true
+    · simp only [hk, Bool.not_true, Bool.false_eq_true, if_false]
+      split
+      · exact ⟨_, rfl⟩
+      · split <;> exact ⟨_, rfl⟩
+    · have hk' : (p.expedited && !passes) = false := by simpa using hk
+      simp only [hk', Bool.not_false, if_true]
+      have : ∃ s1, (if burn = true then burnDeposits pid s0 else refundDeposits pid s0) = .ok s1 := by
+        split
+        · exact burnDeposits_total hb
+        · exact refundDeposits_total hb
+      obtain ⟨s1, h1'⟩ := this
+      rw [h1']
+      simp only
+      split
+      · exact ⟨_, rfl⟩
+      · split <;> exact ⟨_, rfl⟩
+  exact key _ hi.bal
+
+/-- the end-blocker preserves the deposit invariant (kept from the first round: it is now a corollary of
+`gov_endblock_total`, which no longer assumes anything about the queues) -/
+theorem gov_endblock_total_partial (ops : List Op) (stk : Staking) (s' : State) :
+    let s := run init ops
+    endBlock stk s = .ok s' → Inv s' := by
   intro s h
   exact endBlock_inv rfl rfl rfl (run_inv rfl rfl rfl ops init init_inv) h
+
+/-! ## queue consistency, proved: the end-blocker is total -/
+
+/-- **queue consistency in every reachable state**: the inactive queue holds exactly the `(deposit end, id)` of the stored
+proposals in their deposit period, the active queue exactly the `(voting end, id)` of those in their voting period, both
+strictly sorted (every entry once) — so every open proposal is due at its end time and will be settled, and no entry
+lacks its proposal -/
+theorem queue_consistency (ops : List Op) :
+    let s := run init ops
+    (∀ t id, (t, id) ∈ s.inactive ↔ ∃ p, findProp s.props id = some p ∧ p.status = .deposit ∧ p.depositEnd = t) ∧
+    (∀ t id, (t, id) ∈ s.active ↔ ∃ p, findProp s.props id = some p ∧ p.status = .voting ∧ p.votingEnd = t) ∧
+    s.inactive.Pairwise qlt ∧ s.active.Pairwise qlt ∧ s.inactive.Nodup ∧ s.active.Nodup := by
+  intro s
+  have ha : All s := run_all rfl rfl rfl rfl ops init init_all
+  have q := ha.both.q
+  refine ⟨?_, ?_, q.inactSorted, q.actSorted, nodup_of_sorted q.inactSorted, nodup_of_sorted q.actSorted⟩
+  · intro t id
+    exact ⟨q.inactSound t id, fun ⟨p, hp, hs, ht⟩ => ht ▸ q.inactComplete id p hp hs⟩
+  · intro t id
+    exact ⟨q.actSound t id, fun ⟨p, hp, hs, ht⟩ => ht ▸ q.actComplete id p hp hs⟩
+
+/-- **the gov end-blocker never fails**: after every history, with the staking numbers of any staking state, the modelled
+`EndBlocker` returns no error — every refund and burn is covered (deposit invariant), every queue entry has its proposal
+(queue consistency), no tally divides by zero (vote-store invariant and the order of the tests) — and all invariants
+hold again -/
+theorem gov_endblock_total (ops : List Op) (stk : Staking) (hs : stakingOk stk) :
+    ∃ s', endBlock stk (run init ops) = .ok s' ∧ Inv s' ∧ QInv s' ∧ VInv s' := by
+  have ha : All (run init ops) := run_all rfl rfl rfl rfl ops init init_all
+  obtain ⟨s', h, a'⟩ := endBlock_total rfl rfl rfl rfl rfl ha hs
+  exact ⟨s', h, a'.inv, a'.both.q, a'.both.v⟩
+
+/-- no history halts: a step of the model never answers `halt:` -/
+theorem no_halt (ops : List Op) (dt : Nat) (stk : Staking) (hs : stakingOk stk) :
+    (step (run init ops) (.endBlock dt stk)).2 = "ok" := by
+  obtain ⟨s', h, _⟩ := gov_endblock_total ops stk hs
+  simp [step, h]
+
+/-! ## the vote store -/
+
+/-- **votes in every reachable state**: every stored vote passed the validation of `MsgVoteWeighted` (weights in (0, 1],
+no option twice, weights adding up to 1), belongs to a stored proposal that is in its voting period, and there is at
+most one per (proposal, voter) -/
+theorem votes_valid_and_current (ops : List Op) :
+    let s := run init ops
+    (∀ v ∈ s.votes, optsValid v.opts = true ∧ ∃ p, findProp s.props v.pid = some p ∧ p.status = .voting) ∧
+    s.votes.Pairwise (fun a b => ¬ (a.pid = b.pid ∧ a.voter = b.voter)) := by
+  intro s
+  have ha : All s := run_all rfl rfl rfl rfl ops init init_all
+  exact ⟨fun v hv => ⟨ha.both.v.valid v hv, ha.both.v.voting v hv⟩, ha.both.v.uniq⟩
+
+/-- **a tally consumes the votes it counted**: after the tally of a proposal none of its votes is stored, whatever the
+outcome — in particular a failed expedited proposal starts its regular voting period without votes, and no vote is
+counted by two tallies -/
+theorem tally_consumes_votes (stk : Staking) (pid : Nat) (s s' : State) (h : tallyOne stk pid s = .ok s') :
+    votesOf s'.votes pid = [] ∧ ∀ v, v ∈ s'.votes ↔ (v ∈ s.votes ∧ v.pid ≠ pid) := by
+  unfold tallyOne at h
+  split at h
+  · cases h
+  · rename_i p hp
+    split at h
+    · cases h
+    · rename_i n hn
+      split at h
+      · cases h
+      · rename_i passes burn hr
+        simp only [show tallyRemovesVotes = true from rfl, if_true] at h
+        have hv : s'.votes = votesNot s.votes pid := by
+          unfold finishTally at h
+          simp only [show settleShapeOk = true from rfl, Bool.not_true, Bool.false_and, Bool.false_eq_true, if_false] at h
+          simp only [show settleShapeOk = true from rfl, if_true] at h
+          have settle : ∀ s1 : State,
+              (if (!(p.expedited && !passes)) = true then (if burn = true then burnDeposits pid { s with votes := votesNot s.votes pid }
+                else refundDeposits pid { s with votes := votesNot s.votes pid }) else Except.ok { s with votes := votesNot s.votes pid }) = .ok s1 →
+              s1.votes = votesNot s.votes pid := by
+            intro s1 hx
+            split at hx
+            · split at hx
+              · unfold burnDeposits at hx
+                simp only at hx
+                split at hx
+                · cases hx
+                · cases hx; rfl
+              · unfold refundDeposits at hx
+                split at hx
+                · cases hx
+                · cases hx; rfl
+            · cases hx; rfl
+          split at h
+          · cases h
+          · rename_i s1 hx
+            have e1 := settle s1 hx
+            split at h
+            · generalize hr' : runProposalMsgs p.msgs { s1 with active := removeQ (p.votingEnd, pid) s1.active } = rr at h
+              obtain ⟨s3, ok⟩ := rr
+              simp only at h
+              cases h
+              have : s3.votes = s1.votes := by
+                have e3 : s3 = (runProposalMsgs p.msgs { s1 with active := removeQ (p.votingEnd, pid) s1.active }).1 := by rw [hr']
+                rw [e3]
+                exact (runProposalMsgs_same rfl p.msgs { s1 with active := removeQ (p.votingEnd, pid) s1.active }).2.2.2.2.2.2.2.2
+              show s3.votes = _
+              rw [this, e1]
+            · split at h <;> (cases h; exact e1)
+        rw [hv]
+        refine ⟨?_, fun v => mem_votesNot⟩
+        simp [votesOf, votesNot, List.filter_filter]
+
+/-- **no stake is counted twice**: the shares of every delegation held by an account that voted are deducted from the
+validator before the validator's own vote is weighted (regenerated: `val.DelegatorDeductions = ….Add(delegation.GetShares())`
+in the first loop, `DelegatorShares.Sub(DelegatorDeductions)` in the second), a delegation counts only towards a bonded
+validator, a validator that did not vote adds nothing, and each voter's options are weighted with `Mul` -/
+theorem tally_counts_each_stake_once (votes : List Vote) (dels : List Del) (v : Val) :
+    deductions votes dels v.op = sumShares (dels.filter (fun d => d.val == v.op && votes.any (fun x => x.voter == d.who))) ∧
+    valPower v (deductions votes dels v.op) =
+      decQuo ((v.shares - sumShares (dels.filter (fun d => d.val == v.op && votes.any (fun x => x.voter == d.who)))) * v.bonded) v.shares ∧
+    (∀ shares, delPower v shares = decQuo (shares * v.bonded) v.shares) ∧
+    (∀ n r, voteOf votes v.op = none → valLoop votes dels (v :: r) n = valLoop votes dels r n) := by
+  have h1 : tallyDeductsDelegatorShares = true := rfl
+  have h2 : tallyValidatorPower = "sharesAfterDeductions.MulInt(val.BondedTokens).Quo(val.DelegatorShares)" := rfl
+  have h3 : tallySharesAfterDeductions = "val.DelegatorShares.Sub(val.DelegatorDeductions)" := rfl
+  have h4 : tallyDelegatorPower = "delegation.GetShares().MulInt(val.BondedTokens).Quo(val.DelegatorShares)" := rfl
+  have h5 : tallySkipsSilentValidators = true := rfl
+  have h6 : tallyRecordsValidatorVote = true := rfl
+  refine ⟨by simp [deductions, h1], by simp [valPower, deductions, h1, h2, h3], fun shares => by simp [delPower, h4], ?_⟩
+  intro n r hv
+  simp [valLoop, h5, h6, hv]
+
+/-- … and **no stake is counted for more than it is worth**: for a bonded validator with delegator shares `S > 0` and bonded
+tokens `B`, the voting powers `Tally` gives to any voting delegators of it (delegations `ds`, together at most `S` — the
+staking module's invariant) plus the power it leaves to the validator itself never exceed `B` by more than one unit of
+10^-18 per term (the half-even roundings of `Quo`) -/
+theorem tally_power_bounded_by_stake (v : Val) (hS : 0 < v.shares) (ds : List Nat) (hsum : sumNat ds ≤ v.shares) :
+    ∃ pv, valPower v (sumNat ds) = some pv ∧ (∀ d ∈ ds, delPower v d = some (quoVal (d * v.bonded) v.shares)) ∧
+      sumNat (ds.map (fun d => quoVal (d * v.bonded) v.shares)) + pv ≤ DEC * v.bonded + ds.length + 1 := by
+  have h2 : tallyValidatorPower = "sharesAfterDeductions.MulInt(val.BondedTokens).Quo(val.DelegatorShares)" := rfl
+  have h3 : tallySharesAfterDeductions = "val.DelegatorShares.Sub(val.DelegatorDeductions)" := rfl
+  have h4 : tallyDelegatorPower = "delegation.GetShares().MulInt(val.BondedTokens).Quo(val.DelegatorShares)" := rfl
+  refine ⟨quoVal ((v.shares - sumNat ds) * v.bonded) v.shares, ?_, ?_, stake_counted_once v.bonded v.shares hS ds hsum⟩
+  · simp [valPower, h2, h3, decQuo_eq_quoVal hS]
+  · intro d _
+    simp [delPower, h4, decQuo_eq_quoVal hS]
+
+/-! ## multi-message proposals: one type, and the community-pool minimum over the SUM of the spends -/
+
+/-- **every stored proposal, after every history, has messages of one type** (they passed `checkProposalMsgs` at
+submission and the messages of a stored proposal never change) -/
+theorem stored_proposals_single_type (ops : List Op) (pid : Nat) (p : Proposal) :
+    let s := run init ops
+    findProp s.props pid = some p → ∀ a ∈ p.msgs, ∀ b ∈ p.msgs, lowerAscii a.ty = lowerAscii b.ty := by
+  intro s hp
+  have ha : All s := run_all rfl rfl rfl rfl ops init init_all
+  have hc : checkMsgs p.msgs = true := ha.both.q.typed pid p hp
+  cases hm : p.msgs with
+  | nil => intro a ha'; cases ha'
+  | cons m r =>
+    rw [hm] at hc
+    have key := lowerAscii_eq_of_checkMsgs rfl r m hc
+    have all : ∀ x ∈ m :: r, lowerAscii x.ty = lowerAscii m.ty := by
+      intro x hx
+      rcases List.mem_cons.mp hx with hx | hx
+      · rw [hx]
+      · exact key x hx
+    intro a ha' b hb
+    rw [all a ha', all b hb]
+
+/-- the amount a community-pool spend requests in the deposit denom -/
+def spendAmount (m : Msg) : Nat := match m.act with | .credit fx _ _ => fx | _ => 0
+
+def sumSpends : List Msg → Nat
+  | [] => 0
+  | m :: r => spendAmount m + sumSpends r
+
+/-- the requested amount of a proposal whose messages are all community-pool spends is the SUM over its messages -/
+theorem specRequest_is_sum : ∀ msgs : List Msg,
+    specRequest msgs = if msgs.all (fun m => isSpendType m.ty) then some (sumSpends msgs) else none := by
+  intro msgs
+  induction msgs with
+  | nil => simp [specRequest, sumSpends]
+  | cons m r ih =>
+    simp only [specRequest, List.all_cons, sumSpends]
+    by_cases hs : isSpendType m.ty = true
+    · simp only [hs, if_true, Bool.true_and]
+      rw [ih]
+      by_cases hr : (r.all fun m => isSpendType m.ty) = true
+      · cases hm : m.act <;> simp [hr, spendAmount, hm, Nat.add_comm]
+      · cases hm : m.act <;> simp [hr]
+    · simp [hs]
+
+/-- **minimum deposit over the sum of the spends**: a proposal made of several community-pool spends enters voting
+only when its total deposit reaches the configured share (rounded half to even) of the SUM of the requested amounts, or
+the default minimum when that is larger -/
+theorem min_deposit_over_sum_of_spends (s : State) (p : Proposal) (who : Addr) (amt : Nat) (c : Custom)
+    (hdep : p.status = .deposit) (hfound : findProp s.props p.id = some p)
+    (hall : p.msgs.all (fun m => isSpendType m.ty) = true) (hc : getCustom s.custom egfUrl.toList = some c) :
+    match findProp (depositEffect s p who amt).props p.id with
+    | some p' => p'.status = .voting →
+        max (if p.expedited then s.params.expMinDeposit else s.params.minDeposit) (mulRound (sumSpends p.msgs) c.depositRatio) ≤ p'.total
+    | none => True := by
+  have h := voting_requires_min_deposit s p who amt hdep hfound
+  have e : specMin s.custom (if p.expedited then s.params.expMinDeposit else s.params.minDeposit) p.msgs =
+      max (if p.expedited then s.params.expMinDeposit else s.params.minDeposit) (mulRound (sumSpends p.msgs) c.depositRatio) := by
+    unfold specMin
+    rw [specRequest_is_sum, hall, hc]
+    simp
+  rw [e] at h
+  exact h
 
 /-! ## non-vacuity -/
 
 def egf : Ty := egfUrl.toList
-def spend (fx other : Nat) : Msg := ⟨egf, true, true, .credit fx other 1⟩
+def spend (fx other : Nat) : Msg := ⟨egf, true, true, .credit fx other 1, []⟩
+def toggle : Msg := ⟨"/fx.erc20.v1.MsgToggleTokenConversion".toList, true, true, .noop, []⟩
+/-- a legacy text proposal: the message is a `MsgExecLegacyContent`; custom parameters for the wrapped content's type
+url do not apply to it -/
+def legacyText : Msg := ⟨legacyUrl.toList, true, true, .noop, "/cosmos.gov.v1beta1.TextProposal".toList⟩
+example : specPeriod {} [("/cosmos.gov.v1beta1.TextProposal".toList, ⟨0, 45, 0⟩), (legacyUrl.toList, ⟨0, 25, 0⟩)] [legacyText] false = 25 ∧
+    activationPeriod { custom := [("/cosmos.gov.v1beta1.TextProposal".toList, ⟨0, 45, 0⟩), (legacyUrl.toList, ⟨0, 25, 0⟩)] }
+      { id := 1, msgs := [legacyText], proposer := 0, status := .deposit, total := 0, depositEnd := 0, votingStart := 0,
+        votingEnd := 0, expedited := false } = 25 := by decide
+/-- three validators (operators 100, 101, 102) with 100 tokens each; account 0 holds half of validator 100's shares -/
+def demoStk : Staking :=
+  { vals := [⟨100, 200, 200 * DEC⟩, ⟨101, 100, 100 * DEC⟩, ⟨102, 100, 100 * DEC⟩],
+    dels := [⟨0, 100, 100 * DEC⟩, ⟨100, 100, 100 * DEC⟩, ⟨101, 101, 100 * DEC⟩, ⟨102, 102, 100 * DEC⟩], totalBonded := 400 }
 def demoOps : List Op :=
   [ .mint 0 100000, .mint 1 100000,
     .updateCustom egf (some ⟨100000000000000000, 30, 400000000000000000⟩),
     .submit 0 [spend 20000 0] 1999 false,          -- share 2000 > default 1000: not yet
     .deposit 1 1 1,                                 -- reaches 2000: voting, period 30 (custom)
     .submit 0 [spend 0 4] 1 false,                  -- dust in another denom: still needs the default 1000
-    .submit 1 [⟨"/fx.erc20.v1.MsgToggleTokenConversion".toList, true, true, .noop⟩] 5000 true,
-    .endBlock 50 [(1, ⟨false, 500000000000000000, false, false, true, true⟩), (3, ⟨false, 500000000000000000, false, false, false, false⟩)] ]
+    .submit 1 [toggle] 5000 true,                   -- expedited, period 50
+    .submit 1 [spend 12000 0, spend 8000 0] 1999 false,  -- two spends: the share is taken of the sum 20000
+    .vote 1 100 [(.yes, DEC)],                      -- validator 100: 200 tokens, of which …
+    .vote 1 0 [(.no, 700000000000000000), (.abstain, 300000000000000000)],  -- … 100 are overridden by account 0
+    .vote 3 101 [(.yes, DEC)],
+    .vote 2 101 [(.yes, DEC)],                      -- proposal 2 is not in its voting period
+    .vote 1 101 [(.yes, 600000000000000000), (.yes, 400000000000000000)],   -- an option twice
+    .endBlock 50 demoStk, .endBlock 1 demoStk ]
 
 example : ((run init demoOps).props.map (fun p => (p.id, p.status, p.total, p.votingEnd, p.expedited))) =
-    [(1, .voting, 2000, 30, false), (2, .deposit, 1, 0, false), (3, .voting, 5000, 50, true)] := by decide
+    [(1, .passed, 2000, 30, false), (2, .deposit, 1, 0, false), (3, .voting, 5000, 100, false), (4, .deposit, 1999, 0, false)] := by
+  decide
 
-example : (run init demoOps).gov = 7001 ∧ (run init demoOps).time = 50 := by decide
+example : ((run init demoOps).props.map (fun p => p.tallyRes)) = [(100, 30, 70, 0), (0, 0, 0, 0), (100, 0, 0, 0), (0, 0, 0, 0)] := by
+  decide
 
-example : specMin (run init demoOps).custom 1000 [spend 20000 0] = 2000 ∧ specMin (run init demoOps).custom 1000 [spend 0 4] = 1000 := by
+example : (run init demoOps).gov = 5000 + 1 + 1999 ∧ (run init demoOps).time = 51 ∧ (run init demoOps).votes = [] := by decide
+
+example : (demoOps.map (fun o => (step (run init (demoOps.take 11)) o).2)).drop 11 = ["err:inactive", "err:vote", "ok", "ok"] := by
+  decide
+
+example : stakingOk demoStk := by
+  intro v hv; simp [demoStk] at hv; rcases hv with rfl | rfl | rfl <;> decide
+
+example : specMin (run init demoOps).custom 1000 [spend 20000 0] = 2000 ∧ specMin (run init demoOps).custom 1000 [spend 0 4] = 1000 ∧
+    specMin (run init demoOps).custom 1000 [spend 12000 0, spend 8000 0] = 2000 := by
   decide
 
 example : ∃ s', submit init 0 [spend 1 0, spend 2 0] 0 false = .ok s' := ⟨_, rfl⟩
-example : (step init (.submit 0 [spend 1 0, ⟨"/fx.gov.v1.MsgUpdateStore".toList, true, true, .noop⟩] 0 false)).2 = "err:type" := by decide
+example : (step init (.submit 0 [spend 1 0, ⟨"/fx.gov.v1.MsgUpdateStore".toList, true, true, .noop, []⟩] 0 false)).2 = "err:type" := by decide
 
-example : (runProposalMsgs [⟨[], true, true, .cas 0 0 5⟩, ⟨[], true, true, .cas 1 9 1⟩] init).2 = false ∧
-    (runProposalMsgs [⟨[], true, true, .cas 0 0 5⟩, ⟨[], true, true, .cas 1 9 1⟩] init).1.kv = [] ∧
-    (execMsg ⟨[], true, true, .cas 0 0 5⟩ init).map (·.kv) = some [(0, 5)] := by decide
+example : (runProposalMsgs [⟨[], true, true, .cas 0 0 5, []⟩, ⟨[], true, true, .cas 1 9 1, []⟩] init).2 = false ∧
+    (runProposalMsgs [⟨[], true, true, .cas 0 0 5, []⟩, ⟨[], true, true, .cas 1 9 1, []⟩] init).1.kv = [] ∧
+    (execMsg ⟨[], true, true, .cas 0 0 5, []⟩ init).map (·.kv) = some [(0, 5)] := by decide
 
 end FxVerif.Props.C15
